@@ -66,9 +66,39 @@ CLAIMED = {
             "frame obligation that encode / write / persist_msg(OUTBOUND) are only reached through send_msg. The history "
             "statement follows by induction from these clauses and the invariant they re-establish (induction not mechanised).",
             "DESIGN.md 4/C05",
-            "assumed: Journaler.persist_msg abstract contract (unchecked: C13 is not built), hooks do not touch connection state, "
+            "assumed: Journaler.persist_msg abstract contract (its SQL body is proved against the map view in C13), hooks do not touch connection state, "
             "transport write/drain do not raise; trusted: pyvc (60+ path witnesses per run replayed on CPython), z3",
             "contract-based deductive verification: VCs generated from the AST of the real functions, discharged by z3"),
+    "C13": ("proof",
+            "Deductive proof that every Journaler method (__init__, create_or_load, sessions, find_seq_no, persist_msg, "
+            "set_seq_num, recover_messages, recover_msg; real bodies) implements the abstract map (session, direction, "
+            "number) -> bytes + two counters per session: the SQL statements are parsed from the string literals the real "
+            "code hands to cursor.execute and given relational semantics over functional table states of arbitrary "
+            "contents; every sentence of the statement is a clause proved at arbitrary probe keys (so for every key, "
+            "session, direction and number, no bound on table sizes); cursor loops by a per-row rule; find_seq_no's string "
+            "code is proved against its contract with cvc5 (lemma cuts). Two genuine defects found by the first run were "
+            "repaired (fix: commits a3bce9c sessions() off by one, f21dd5c set_seq_num without commit).",
+            "DESIGN.md 4/C13 and 9",
+            "assumed: A-SQL relational semantics of the statement shapes used (sqlmodel.py; witnesses of every path are "
+            "replayed on real sqlite3), 64-bit range of numbers ignored, per-row loop rule, induction over operation "
+            "sequences from per-operation clauses + table invariants; get_all_msgs (dynamic SQL) is not under contract; "
+            "trusted: pyvc, z3, cvc5",
+            "contract-based deductive verification: VCs generated from the AST of the real functions and their SQL text, "
+            "discharged by z3 / cvc5"),
+    "C08": ("proof",
+            "Deductive proof of crash consistency over a transactional ghost of the sqlite3 contract (pending / durable "
+            "table states): for every Journaler method, on every path, (1) at every commit site of the real code the "
+            "durable state equals the complete post-state of the operation (applied entirely or not at all; a message row "
+            "never without its counter), (2) on every exit, normal or exceptional, pending == durable (a completed store, "
+            "set or reset survives a kill right after the call; close loses nothing), (3) reopening a file changes nothing. "
+            "Durable state changes only at commit(), so 'every crash point' reduces to these sites. Refutations are replayed "
+            "for real (child process os._exit()s after the call, parent reopens the file). One genuine defect repaired "
+            "(fix: f21dd5c, set_seq_num never committed).",
+            "DESIGN.md 4/C08 and 9",
+            "assumed: A-SQLTX (implicit BEGIN before DML, atomic durable commit, rollback on close) and SQLite's own "
+            "durability; A-SQL as in C13; no other user of the connection between calls; trusted: pyvc, z3",
+            "contract-based deductive verification: VCs generated from the AST of the real functions over a transactional "
+            "ghost model of sqlite3, discharged by z3"),
 }
 
 NOT_APPLICABLE = {
